@@ -163,7 +163,7 @@ func (eng *Engine) buildIntrinsics() {
 		name := fn.String()
 		short := fn.Name()
 		if strings.HasPrefix(short, "vsym_") || strings.HasPrefix(short, "vopt_") || short == "vassume" || short == "vassert" ||
-			short == "vreach" || short == "vsymbolic" || short == "vconc" || short == "vfail" {
+			short == "vreach" || short == "vand" || short == "vor" || short == "vite" || short == "vsymbolic" || short == "vconc" || short == "vfail" {
 			if fn.Signature.Recv() == nil && fn.Parent() == nil {
 				nm := short
 				eng.intr[fn] = func(it *Interp, f *ssa.Function, args []Value) Value {
